@@ -29,23 +29,7 @@ type c08Case struct {
 
 // c08HigherPriority reports whether a format that is tried before json accepts h.
 func c08HigherPriority(h []byte, limit uint32) string {
-	for _, c := range root.children {
-		if c == text {
-			break
-		}
-		if c.detector(h, limit) {
-			return c.mime
-		}
-	}
-	for _, c := range text.children {
-		if c == json {
-			break
-		}
-		if c.detector(h, limit) {
-			return c.mime
-		}
-	}
-	return ""
+	return vfEarlierSibling([]*MIME{text, json}, h, limit)
 }
 
 func c08IsJSONFamily(m *MIME) bool {
